@@ -63,7 +63,7 @@ Example C07_rebind_after_expiry :
   let p := {| ip := 281470698652161; port := 7000 |} in
   let q := {| ip := 281470698652162; port := 7000 |} in
   map (filter (fun a => match a with Life _ => false | _ => true end)) (snd (run cfg (init 100)
-    [EReq c 1 cr (RqAllocate (APresent 17%N) AAbsent AAbsent false (Some 49152%N)) false;
+    [EReq c 1 cr (RqAllocate (APresent 17%N) AAbsent AAbsent false (Some 49152%N) false AAbsent 0%N) false;
      EReq c 2 cr (RqChannelBind (APresent 16384%N) (Some (PeerOk p))) false;
      EReq c 3 cr (RqChannelBind (APresent 16384%N) (Some (PeerOk q))) false;
      EReq c 4 cr (RqChannelBind (APresent 16385%N) (Some (PeerOk p))) false;
